@@ -34,7 +34,8 @@ def tables(ctx, rep):
     for n, t in tabs.items():
         npanic = sum(1 for x in t.out if x == PANIC)
         if npanic:
-            rep.finding('PANIC layout=%s' % n, '%d input cells of %s end in a panic (see C08); first: %s' % (
+            # a trapping cell is C08's finding; here it simply is a cell with no output
+            rep.note('%d input cells of %s end in a panic (reported by C08); first: %s' % (
                 npanic, n, leaf_where(t.leaves[t.leaf_of[t.out.index(PANIC)]])))
     return tabs
 
